@@ -330,6 +330,35 @@ Proof.
     + split; [vm_compute; reflexivity|]. eexists; vm_compute; reflexivity.
 Qed.
 
+(* ---- the tie to the source text (gen/SrcFill.v, regenerated on every run from schedule.py): the four day-by-day
+   loops of the schedulers, translated from their current source text, end within the fuel the translation gives them
+   (max_steps + 2 rounds of the `while`, max_steps rounds of the `for`) and raise nothing but RuntimeError - no
+   ZeroDivisionError in the day-share divisions, no unbounded loop - for every configuration, every ledger with
+   positive rows, every date and amount *)
+From Coq Require Import QArith.
+From PJ Require Import Cal.Calendar gen.SrcFill Sched.SrcFillEquiv Sched.SrcFillInv.
+Open Scope Z_scope.
+
+Theorem C14_src_fwd_shift_outcome : forall cfg r t l s0 left k, pos_rows l -> 0 <= left ->
+  src_fwd_shift (balance cfg) (nearest_of (cap cfg r) (h_search cfg)) (gau_of (cap cfg r)) r (qrows_of l) s0 t
+                (inject_Z left) (Z.of_nat (h_fill cfg)) <> Crash k.
+Proof. exact src_fwd_shift_outcome. Qed.
+
+Theorem C14_src_bwd_shift_outcome : forall cfg r t l e0 left k, pos_rows l -> 0 <= left ->
+  src_bwd_shift (balance cfg) (nearest_of (cap cfg r) (h_search cfg)) (gau_of (cap cfg r)) r (qrows_of l) e0 t
+                (inject_Z left) (Z.of_nat (h_fill cfg)) <> Crash k.
+Proof. exact src_bwd_shift_outcome. Qed.
+
+Theorem C14_src_fwd_nearest_outcome : forall cfg r t l t0 k, pos_rows l ->
+  src_fwd_nearest (balance cfg) (nearest_of (cap cfg r) (h_search cfg)) (gau_of (cap cfg r)) r (qrows_of l) t0 t
+                  (Z.of_nat (h_near cfg)) <> Crash k.
+Proof. exact src_fwd_nearest_outcome. Qed.
+
+Theorem C14_src_bwd_nearest_outcome : forall cfg r t l t0 k, pos_rows l ->
+  src_bwd_nearest (balance cfg) (nearest_of (cap cfg r) (h_search cfg)) (gau_of (cap cfg r)) r (qrows_of l) t0 t
+                  (Z.of_nat (h_near cfg)) <> Crash k.
+Proof. exact src_bwd_nearest_outcome. Qed.
+
 Print Assumptions C14_total_forward.
 Print Assumptions C14_total_backward.
 Print Assumptions C14_compute_no_crash.
@@ -356,3 +385,7 @@ Print Assumptions C14_err_calendar_ended_backward.
 Print Assumptions C14_err_calendar_ended_forward_from.
 Print Assumptions C14_err_beyond_horizon.
 Print Assumptions C14_example_starved_last.
+Print Assumptions C14_src_fwd_shift_outcome.
+Print Assumptions C14_src_bwd_shift_outcome.
+Print Assumptions C14_src_fwd_nearest_outcome.
+Print Assumptions C14_src_bwd_nearest_outcome.
